@@ -10,7 +10,7 @@ const code = runSem("C06", "c06", (d) => ({
     samples: d.samples,
     exhaustive: d.configs.filter((c) => c.closed).length > 0,
     explanation:
-      "layer 1: explicit-state BFS over the real BddOps (state = structurally distinct Bdd, the type's own Ord is the canonical form); initial True, False, from_atom(a_i); transitions union/intersect/diff on every ordered pair of discovered states and complement on every state; invariant per transition: truth table of the result == Boolean operation on the operands' truth tables (all 2^k assignments, independent 4-line evaluator); invariant per state: bdd_to_dnf and dnf_to_bdd(bdd_to_dnf(.)) keep the truth table. Closure reached for k<=2 (all atom-kind mixes), k=3 and k=4 explored for the stated number of rounds. layer 2 (tags and literal sets): every ordered pair of operand semtypes (pool incl. complements/differences so that excluded-literal sets occur) x 3 operations + complement, membership of every value of the universe compared with the Boolean combination, using an independent evaluator over the same atom tables",
+      "layer 1: explicit-state BFS over the real BddOps (state = structurally distinct Bdd, the type's own Ord is the canonical form); initial True, False, from_atom(a_i); transitions union/intersect/diff on every ordered pair of discovered states and complement on every state; invariant per transition: truth table of the result == Boolean operation on the operands' truth tables (all 2^k assignments, independent 4-line evaluator); invariant per state: bdd_to_dnf and dnf_to_bdd(bdd_to_dnf(.)) keep the truth table. Closure reached for k<=2 (all atom-kind mixes), k=3 and k=4 explored for the stated number of full rounds, followed (per_alphabet.linear_rounds) by linear rounds in which every new diagram is combined, in both operand orders, with the diagrams of the first round only (operation chains three and four deep stay enumerable where the full product does not). layer 2 (tags and literal sets): every ordered pair of operand semtypes (pool incl. complements/differences so that excluded-literal sets occur) x 3 operations + complement, membership of every value of the universe compared with the Boolean combination, using an independent evaluator over the same atom tables",
     per_alphabet: d.configs,
     layer2_operand_types: d.layer2_operands,
     layer2_values: d.layer2_values,
